@@ -13,4 +13,12 @@ GenNext == \/ (\E c \in Conns : EnvC(c) \/ MainC(c) \/ AuxC(c)) /\ UNCHANGED don
 GenSpec == GenInit /\ [][GenNext]_<<vars, done>>
 Scenario == [c \in Conns |-> [hs |-> st[c].hs, tk |-> st[c].tk]]
 DumpInv == done => PrintT(<<"BEH", ToJson([sc |-> Scenario, tr |-> tr])>>)
+\* Model finding -> behaviour.  With DrainMode = "inner" (tcp.go:307 as written) TLC finds a state in which a client that
+\* keeps an authenticated-but-invalid stream open sees the proxy's FIN, the target having closed only in response to the
+\* proxy's FIN.  Exhaustive BFS stops at the shortest such behaviour and prints it; c06 replays it on the real code.
+DrainWitness == \E c \in Conns : /\ MustAuth(st[c], ob[c]) /\ OHasBad(ob[c]) /\ ~st[c].cfin
+                                 /\ Has(ob[c].clog, 0) /\ ob[c].tfinPolite
+\* the history does not distinguish states: BFS keeps the history of the first (a shortest) path to each state
+GenView == <<st, ob, now, lst, srv, done>>
+WitnessDump == DrainWitness => (PrintT(<<"BEH", ToJson([sc |-> Scenario, tr |-> tr])>>) /\ FALSE)
 ===============================================================================
